@@ -1,4 +1,3 @@
-import numbers
 
 from . import feat_logic, meta_const, meta_parse
 
@@ -76,13 +75,16 @@ def get_config_value_func(section, key):
     elif meta_const.config_funcs.get(section, {}).get(key, False):
         func = meta_const.config_funcs[section][key]
     elif section == "online_filter":
-        # Note that for "min" and "max" values we do nothing (None)
         if key.endswith("soft limit"):
             # "online_filter:area_um,deform soft limit"
             func = meta_parse.fbool
         elif key.endswith("polygon points"):
             # "online_filter:area_um,deform polygon points"
             func = meta_parse.f2dfloatarray
+        elif key.endswith("min") or key.endswith("max"):
+            # "online_filter:area_um min": any number; keep int or float
+            # as it is, but convert strings (e.g. from a .cfg file)
+            func = meta_parse.fnumber
 
     if func is None:
         return lambda x: x
@@ -108,5 +110,5 @@ def get_config_value_type(section, key):
             typ = meta_parse.func_types[meta_parse.f2dfloatarray]
         elif key.endswith("min") or key.endswith("max"):
             # most-general type is a number
-            typ = numbers.Number
+            typ = meta_parse.func_types[meta_parse.fnumber]
     return typ
